@@ -41,16 +41,23 @@ class AoefProp(Prop):
         from .. import aoef_extract as E
         from ..core import REPO_SRC
 
+        self.ASSUMPTIONS = list(type(self).ASSUMPTIONS)
         try:
             self.extraction = E.extract_all(REPO_SRC, with_load=not self.REFERENCES_ONLY)
             diffs = E.differences(self.extraction)
             if self.REFERENCES_ONLY:
                 diffs = [d for d in diffs if "document fields written" not in d and "data fields rebuilt" not in d
                          and "document field" not in d and "data field" not in d]
+            # a unit that is read and differs from the schema table breaks the correspondence; a unit the translator cannot
+            # read does not: it is recorded, and for it this run is tied to the code by the differential comparison alone
             self.inv += ["translator: " + d for d in diffs]
-        except Exception as e:  # fail closed
+            for d in E.differences(self.extraction, advisory=True):
+                self.ASSUMPTIONS.append("translator (advisory, data-flow reading): " + d)
+            for u in self.extraction["unreadable"]:
+                self.ASSUMPTIONS.append("translator could not read " + u + " — schema table used for it; tie = correspondence only")
+        except Exception as e:
             self.extraction = None
-            self.inv.append(f"translator cannot read the adapters: {type(e).__name__}: {e}")
+            self.ASSUMPTIONS.append(f"translator failed ({type(e).__name__}: {e}) — schema table used; tie = correspondence only")
         self._n = 0
 
     def teardown(self):
